@@ -29,6 +29,7 @@ RULE = (
     'with >=2 paths and >=1 of {named tuple, defaultdict, Box, positional Buildable argument}.'
 )
 RULE += (' ' + 'Also checked: get_all_paths for values without identity (paths of the nearest identity-bearing container plus suffix) and, after a shared container was appended to another list since the cache was filled, get_all_paths(allow_caching=False) on states collected before (leaves of the affected container first).')
+RULE += (' ' + "Rounds 3-5: a **kwargs argument deleted and re-set after traversal; chains of registration-free registries ending in the default registry or in fiddle's dataclass registry (dataclass instances as nodes); legacy traverse_with_all_paths judged at every node; g3 nodes with an unset defaulted parameter before *args; a **kwargs entry named like a positional-only parameter.")
 ASSUMPTIONS = [
     'reference walk harness/canon.walk + Box wrapper expansion in this file',
     'paths through a Box (whose children are temporaries by design) are excluded from the '
